@@ -130,6 +130,16 @@ func checkPrecond(r *Report, a *Analysis, sc *Scope, fns []*ssa.Function, rule s
 			}
 			for _, in := range b.Instrs {
 				switch x := in.(type) {
+				case *ssa.Store:
+					// a crypto.Hash handed to the standard library in an options struct: Hash.New panics ("requested hash
+					// function #0 is unavailable") unless the value names a linked-in hash
+					if fa, ok := x.Addr.(*ssa.FieldAddr); ok && types.TypeString(x.Val.Type(), nil) == "crypto.Hash" {
+						if n := namedOf(fa.X.Type()); n != nil && n.Obj().Pkg() != nil && strings.HasPrefix(n.Obj().Pkg().Path(), "crypto/") {
+							cons := fmt.Sprintf("%s: %s.%s is an available hash", p.FnName(fn), n.Obj().Name(), fieldName(fa.X.Type(), fa.Field))
+							why := unavailableHash(p, fc, b, x.Val, 0)
+							r.Check(why == "", rule, cons, p.InstrPos(in), "a non-zero constant (or a table of such) on every path", "the hash identifier "+fc.AP(x.Val)+" "+why+": the standard library panics when asked for hash function #0")
+						}
+					}
 				case *ssa.TypeAssert:
 					if x.CommaOk {
 						// the ok result must be used (tested)
@@ -350,6 +360,11 @@ func checkAEADNonce(r *Report, fc *FuncCtx, b *ssa.BasicBlock, in ssa.Instructio
 	cons := fmt.Sprintf("%s: %s nonce=%s", p.FnName(fc.Fn), calleeName(c), fc.AP(nonce))
 	if sliceLenAP(fc, nonce) == want {
 		r.OK(rule, cons, p.InstrPos(in), "nonce has length "+want+" (prefix of that length, or made with it)")
+		return
+	}
+	// the call sits in an unexported helper that receives the nonce (and the AEAD): established at every call site
+	if atEveryCallSite(fc, func(sub *FuncCtx) bool { return sliceLenAP(sub, nonce) == sub.AP(c.Value)+".NonceSize()" }) {
+		r.OK(rule, cons, p.InstrPos(in), "at every call site of the helper the nonce has length NonceSize()")
 		return
 	}
 	r.Bad(rule, cons, p.InstrPos(in), "nonce length is not established to equal NonceSize() (Open/Seal panic with 'incorrect nonce length')")
@@ -1147,7 +1162,10 @@ func checkGCMAuth(r *Report, a *Analysis, sc *Scope, rule string) {
 		for _, o := range opens {
 			ct := o.Common().Args[2]
 			cons := fmt.Sprintf("%s: Open authenticates the cipher value", p.FnName(fn))
-			r.Check(strings.Contains(fc.AP(ct), "getCiphertext") || strings.Contains(fc.AP(ct), "r:"), rule, cons, p.InstrPos(o.(ssa.Instruction)), "ciphertext operand is "+fc.AP(ct), "ciphertext operand of Open does not derive from the element's cipher value")
+			fromValue := func(x *FuncCtx) bool {
+				return strings.Contains(x.AP(ct), "getCiphertext") || strings.Contains(x.AP(ct), "r:")
+			}
+			r.Check(fromValue(fc) || atEveryCallSite(fc, fromValue), rule, cons, p.InstrPos(o.(ssa.Instruction)), "ciphertext operand is "+fc.AP(ct), "ciphertext operand of Open does not derive from the element's cipher value")
 		}
 	}
 	if n == 0 {
@@ -1367,4 +1385,96 @@ func safely(r *Report, f func()) {
 		}
 	}()
 	f()
+}
+
+// atEveryCallSite: fc is the context of an unexported function analysed on its own; holds reports whether a fact about
+// its parameters holds when they are bound to the arguments of each static call site (there must be one, and no other
+// way of reaching the function).
+func atEveryCallSite(fc *FuncCtx, holds func(sub *FuncCtx) bool) bool {
+	p := fc.A.P
+	fn := fc.Fn
+	if fc.parent != nil || fn.Object() == nil || fn.Object().Exported() || fn.Signature.Recv() != nil && fn.Object().Exported() {
+		return false
+	}
+	sites := p.CallersOf(fn)
+	if len(sites) == 0 {
+		return false
+	}
+	for _, cs := range sites {
+		call, ok := cs.Instr.(*ssa.Call)
+		if !ok || cs.Shift != 0 || call.Call.StaticCallee() != fn {
+			return false
+		}
+		sub := fc.A.Ctx(cs.Caller).inlineCtx(fn, call.Call.Args, call)
+		if !holds(sub) {
+			return false
+		}
+	}
+	return true
+}
+
+// unavailableHash: why v (a crypto.Hash) may be zero ("" if every alternative is a non-zero constant, an element of a
+// constant table of such, the result of a module function that returns only such, or was tested against zero).
+func unavailableHash(p *Prog, fc *FuncCtx, at *ssa.BasicBlock, v ssa.Value, depth int) string {
+	if depth > 6 {
+		return "could not be traced to constants"
+	}
+	switch x := v.(type) {
+	case *ssa.Const:
+		if x.Value != nil && x.Int64() != 0 {
+			return ""
+		}
+		return "can be 0"
+	case *ssa.Phi:
+		for i, e := range x.Edges {
+			if e == v {
+				continue
+			}
+			if why := unavailableHash(p, fc, x.Block().Preds[i], e, depth+1); why != "" {
+				return why
+			}
+		}
+		return ""
+	case *ssa.Call:
+		if sc := x.Call.StaticCallee(); sc != nil && p.InModule(sc) && len(sc.Blocks) > 0 {
+			sub := fc.A.Ctx(sc)
+			for _, ret := range returnsOf(sc) {
+				if len(ret.Results) == 0 {
+					continue
+				}
+				if why := unavailableHash(p, sub, ret.Block(), ret.Results[0], depth+1); why != "" {
+					return why + " (returned by " + shortFn(sc) + " at " + p.InstrPos(ret) + ")"
+				}
+			}
+			return ""
+		}
+	case *ssa.Extract:
+		if lk, ok := x.Tuple.(*ssa.Lookup); ok && x.Index == 0 {
+			return unavailableHash(p, fc, at, lk, depth+1)
+		}
+	case *ssa.Lookup:
+		if ld, ok := x.X.(*ssa.UnOp); ok {
+			if g, ok := ld.X.(*ssa.Global); ok {
+				if ents, ok := p.globalMapEntries(g); ok {
+					for _, e := range ents {
+						if k, ok := e.v.(*ssa.Const); !ok || k.Value == nil || k.Int64() == 0 {
+							return "comes from the table " + g.Name() + ", which holds a zero or computed entry"
+						}
+					}
+					if x.CommaOk {
+						return "" // (the miss is the caller's test of ok)
+					}
+					return "comes from the table " + g.Name() + " without a comma-ok test: a miss yields 0"
+				}
+			}
+		}
+	}
+	// tested against zero on the way
+	ap := fc.AP(v)
+	for _, nm := range []string{"eq(" + ap + ",c:0)", "eq(c:0," + ap + ")"} {
+		if fc.A.B.HasVar(nm) && fc.Implied(at, fc.A.B.Not(fc.A.B.Var(nm))) {
+			return ""
+		}
+	}
+	return "is not a constant on every path"
 }
